@@ -15,7 +15,7 @@ import vlib
 MC = {"quick": ("MC_SessionUrlQuick.cfg", 3), "thorough": ("MC_SessionUrlFull.cfg", 4)}
 N_RANDOM = {"quick": 300, "thorough": 4000}
 N_BAD = {"quick": 3, "thorough": 20}        # names per bad-reply script
-BAD_SCRIPTS = ["204", "403", "500", "500profile", "300profile", "garbage", "empty", "truncated", "wrongshape", "nothttp", "close"]
+BAD_SCRIPTS = ["204", "403", "500", "500profile", "300profile", "garbage", "empty", "truncated", "wrongshape", "emptyobj", "errorjson", "idonly", "nameonly", "nothttp", "close"]
 SIGMA = 11                                   # symbols of SessionUrl!Sigma
 
 
